@@ -98,6 +98,12 @@ class C17(PropertyCheck):
         for (m_, t_, s_) in acnt_cases:
             for _ in range(12):
                 add(m_, t_, s_, "table-label-on-sets")
+        # codec edge strings (seeds C17-8, C18-8): as meta, table entry, label and slot name
+        for k, w in enumerate(R.CODEC_WORDS):
+            st = blank_set(w if k % 2 else None)
+            st[1 + (37 * k) % 256] = w
+            st[256] = R.CODEC_WORDS[(k + 1) % len(R.CODEC_WORDS)]
+            add(w, [w] + [None] * 255 + [w], [st], "codec-edge")
         # table: first / last entry alone; many sets in one file (labels repeated, interleaved empty sets)
         add(None, [b"first"] + [None] * 256, [], "table-edges")
         add(None, [None] * 256 + [b"last"], [set_with(rng, [256])], "table-edges")
